@@ -262,6 +262,19 @@ def delayBP (b : BP) (delay maxdelay : Rat) : Res BP :=
       r2.st.insertSegment (-1) Fn.rampFn [.num 0, .num 0] (.num (maxdelay - delay)) .none
     else r2
 
+/-- `_applyDelays` for one channel entry: a blueprint gets its delay segments, raw arrays are
+    zero-padded at the element's sample rate -/
+def delayChan (sr maxdelay : Rat) (ent : ChEntry) (delay : Rat) : Except Err ChEntry :=
+  match ent.data with
+  | .bp b =>
+    match (delayBP b delay maxdelay).toExcept with
+    | .error er => .error er
+    | .ok b' => .ok { ent with data := .bp b' }
+  | .arr a s =>
+    .ok { ent with data := .arr (a.map (fun (k, xs) =>
+        (k, padArr (rhe (delay * sr)).toNat (rhe ((maxdelay - delay) * sr)).toNat xs))) s }
+  | .broken => .error .key
+
 /-- `Element._applyDelays(delays)` — `delays` are in the order of the element's own channels -/
 def applyDelays (e : Element) (delays : List Rat) : Res Element :=
   if delays.length ≠ e.chans.length then ⟨e, some .value⟩
@@ -269,25 +282,12 @@ def applyDelays (e : Element) (delays : List Rat) : Res Element :=
   else match e.validate with
     | .error er => ⟨e, some er⟩
     | .ok m =>
-      let e := { e with cache := some m }
       match m.1 with
       | .num sr =>
-        let maxdelay := maxR delays
-        let go := (e.chans.zip delays).mapM (m := Except Err) (fun ((ch, ent), delay) =>
-          match ent.data with
-          | .bp b =>
-            let r := delayBP b delay maxdelay
-            match r.err with
-            | some er => .error er
-            | none => .ok (ch, { ent with data := .bp r.st })
-          | .arr a s =>
-            .ok (ch, { ent with data := .arr (a.map (fun (k, xs) =>
-                (k, padArr (rhe (delay * sr)).toNat (rhe ((maxdelay - delay) * sr)).toNat xs))) s })
-          | .broken => .error .key)
-        match go with
-        | .ok chans => ⟨{ e with chans := chans }, none⟩
-        | .error er => ⟨e, some er⟩
-      | _ => ⟨e, some .type⟩
+        match (e.chans.zip delays).mapM (fun p => (delayChan sr (maxR delays) p.1.2 p.2).map (fun y => (p.1.1, y))) with
+        | .ok chans => ⟨{ chans := chans, cache := some m }, none⟩
+        | .error er => ⟨{ e with cache := some m }, some er⟩
+      | _ => ⟨{ e with cache := some m }, some .type⟩
 
 end Element
 end BB
